@@ -644,7 +644,7 @@ class unknown_sizes_refused:
     """an operation that needs sizes that are still unknown raises instead of returning a wrongly shaped result"""
     bounded_only = True
     params = {"n": "const", "chunks": "const", "op": "const"}
-    scope = "boolean-mask selections of 1-D arrays of length <= 7 (all chunkings up to 3 blocks); ops: slices, ints, rechunk, reverse, take"
+    scope = "boolean-mask selections of 1-D arrays of length <= 7 (all chunkings up to 3 blocks); ops: slices, ints, rechunk, reverse, take, elementwise, reductions, cov/corrcoef, cumsum, concatenate, apply_along_axis, diff, reshape, dot, average, where"
 
     def real():
         return lambda y, op: op(y)
@@ -667,16 +667,37 @@ class unknown_sizes_refused:
             "plus": (lambda a: a + 1, lambda w: w + 1),
             "sum": (lambda a: a.sum(), lambda w: w.sum()),
             "plus-known": (lambda a: a + x, lambda w: w + d),
+            # statistics that normalise by the (unknown) number of observations, and more routines that need sizes
+            "cov-with-index": (lambda a: da.cov(da.stack([a, a * a])), lambda w: np.cov(np.stack([w, w * w]))),
+            "corrcoef-with-square": (lambda a: da.corrcoef(da.stack([a, a * a + a])), lambda w: np.corrcoef(np.stack([w, w * w + w]))),
+            "mean": (lambda a: a.mean(), lambda w: w.mean()),
+            "var": (lambda a: a.var(), lambda w: w.var()),
+            "std(ddof=1)": (lambda a: a.std(ddof=1), lambda w: w.std(ddof=1)),
+            "cumsum": (lambda a: a.cumsum(axis=0), lambda w: w.cumsum()),
+            "concat-self": (lambda a: da.concatenate([a, a]), lambda w: np.concatenate([w, w])),
+            "apply_along_axis(sum)": (lambda a: da.apply_along_axis(np.sum, 0, a), lambda w: np.apply_along_axis(np.sum, 0, w)),
+            "max": (lambda a: a.max(), lambda w: w.max()),
+            "argmax": (lambda a: a.argmax(), lambda w: w.argmax()),
+            "diff": (lambda a: da.diff(a), lambda w: np.diff(w)),
+            "reshape(-1,1)": (lambda a: a.reshape(-1, 1), lambda w: w.reshape(-1, 1)),
+            "dot-self": (lambda a: da.dot(a, a), lambda w: np.dot(w, w)),
+            "average": (lambda a: da.average(a), lambda w: np.average(w)),
+            "where": (lambda a: da.where(a > 4, a, -a), lambda w: np.where(w > 4, w, -w)),
         }
         f, g = ops[op]
+        import warnings
         try:
-            got = np.asarray(fn(y, f).compute())
-        except ValueError as e:
+            with warnings.catch_warnings():
+                warnings.simplefilter("ignore")
+                got = np.asarray(fn(y, f).compute())
+        except (ValueError, NotImplementedError) as e:
             return ("refused", str(e)[:80], None)
         except IndexError as e:
             return ("index-error", str(e)[:80], None)
         try:
-            w = g(want)
+            with warnings.catch_warnings():
+                warnings.simplefilter("ignore")
+                w = g(want)
         except (IndexError, ValueError):
             return ("numpy-refuses", None, got)
         return ("computed", got, np.asarray(w))
@@ -699,6 +720,10 @@ class unknown_sizes_refused:
             for ch in cat.layouts_1d(n, "quick"):
                 for op in ("full", "slice", "int", "rev", "rechunk2", "rechunk-1", "take", "plus", "sum", "plus-known"):
                     yield {"n": n, "chunks": ch, "op": op}
+                if n >= 5 and len(ch) >= 2:
+                    for op in ("cov-with-index", "corrcoef-with-square", "mean", "var", "std(ddof=1)", "cumsum", "concat-self",
+                               "apply_along_axis(sum)", "max", "argmax", "diff", "reshape(-1,1)", "dot-self", "average", "where"):
+                        yield {"n": n, "chunks": ch, "op": op}
 
 
 # ---------------------------------------------------------------------------
